@@ -137,23 +137,5 @@ fn login_flow<const L: usize>() {
 #[kani::stub(crate::srp_internal::calculate_client_proof, sih::stub_client_proof)]
 #[kani::stub(crate::srp_internal::calculate_server_proof, sih::stub_server_proof)]
 fn c01_flow() {
-    login_flow::<3>();
-}
-
-#[kani::proof]
-#[kani::unwind(42)]
-#[kani::stub(core::str::from_utf8, verif_oracle::from_utf8_model)]
-#[kani::stub(crate::srp_internal::calculate_password_verifier, sih::stub_verifier)]
-#[kani::stub(crate::srp_internal::calculate_server_public_key, sih::stub_server_public_key)]
-#[kani::stub(crate::srp_internal_client::calculate_client_public_key, sch::stub_client_public_key)]
-#[kani::stub(crate::srp_internal::calculate_x, sih::stub_x)]
-#[kani::stub(crate::srp_internal::calculate_u, sih::stub_u)]
-#[kani::stub(crate::srp_internal_client::calculate_client_S, sch::stub_client_S)]
-#[kani::stub(crate::srp_internal::calculate_S, sih::stub_S)]
-#[kani::stub(crate::srp_internal::calculate_interleaved, sih::stub_interleaved)]
-#[kani::stub(crate::srp_internal_client::calculate_client_proof_with_custom_value, sch::stub_client_proof_custom)]
-#[kani::stub(crate::srp_internal::calculate_client_proof, sih::stub_client_proof)]
-#[kani::stub(crate::srp_internal::calculate_server_proof, sih::stub_server_proof)]
-fn c01_flow_16() {
     login_flow::<16>();
 }
